@@ -6,6 +6,10 @@ package http
 // transport error while reading the body — never a complete-looking 200 response.
 
 import (
+	"bytes"
+	"compress/gzip"
+	"context"
+	"net"
 	"time"
 	"errors"
 	"fmt"
@@ -13,6 +17,8 @@ import (
 	"net/http"
 	"testing"
 
+	"github.com/rqlite/rqlite/v10/cluster"
+	clstrPB "github.com/rqlite/rqlite/v10/cluster/proto"
 	command "github.com/rqlite/rqlite/v10/command/proto"
 	"github.com/rqlite/rqlite/v10/proxy"
 	"github.com/rqlite/rqlite/v10/store"
@@ -37,14 +43,14 @@ func TestVerifC21HTTP(t *testing.T) {
 	for _, relayed := range []bool{false, true} {
 		for _, k := range []int{-1, 0, 1, 100, 5000, 40000} {
 			fn := func(dst io.Writer) error {
+				// like Store.Backup and cluster.Client.Backup: io.Copy from a source, so that any
+				// ReaderFrom / WriterTo fast path of the destination is exercised too
 				if k < 0 {
-					_, err := dst.Write(full)
+					_, err := io.Copy(dst, bytes.NewReader(full))
 					return err
 				}
-				if k > 0 {
-					dst.Write(full[:k])
-				}
-				return errors.New("c21: scripted backup failure")
+				_, err := io.Copy(dst, &c21FailingReader{data: full[:k]})
+				return err
 			}
 			if relayed {
 				m.backupFn = func(br *command.BackupRequest, dst io.Writer) error { return store.ErrNotLeader }
@@ -92,6 +98,172 @@ func TestVerifC21HTTP(t *testing.T) {
 				rep.Fail(fmt.Sprintf("http:failed-backup-answered-200-with-complete-looking-body:%s:%s", path, when),
 					fmt.Sprintf("%s backup failed after %d of %d bytes; the HTTP client got status 200 and a body of %d bytes that ended normally", path, k, len(full), len(body)),
 					map[string]interface{}{"path": path, "fail_after": k, "status": status, "body_bytes": len(body)})
+			}
+		}
+	}
+	rep.vfCompare("backup", ops, impl, nil)
+}
+
+// c21FailingReader yields data and then an error (a source that fails part way).
+type c21FailingReader struct {
+	data []byte
+	pos  int
+}
+
+func (r *c21FailingReader) Read(p []byte) (int, error) {
+	if r.pos >= len(r.data) {
+		return 0, errors.New("c21: scripted source failure")
+	}
+	n := copy(p, r.data[r.pos:])
+	r.pos += n
+	return n, nil
+}
+
+// ---- a leader that cuts the backup stream: real cluster.Service over doubles ---------------
+
+type c21LeaderDB struct {
+	payload []byte
+	failAt  int // the source fails after this many payload bytes (-1: never)
+}
+
+func (d *c21LeaderDB) Execute(ctx context.Context, er *command.ExecuteRequest) ([]*command.ExecuteQueryResponse, uint64, error) {
+	return nil, 0, nil
+}
+func (d *c21LeaderDB) Query(ctx context.Context, qr *command.QueryRequest) ([]*command.QueryRows, command.ConsistencyLevel, uint64, error) {
+	return nil, command.ConsistencyLevel_NONE, 0, nil
+}
+func (d *c21LeaderDB) Request(ctx context.Context, rr *command.ExecuteQueryRequest) ([]*command.ExecuteQueryResponse, uint64, uint64, error) {
+	return nil, 0, 0, nil
+}
+func (d *c21LeaderDB) Load(ctx context.Context, lr *command.LoadRequest) error { return nil }
+func (d *c21LeaderDB) Backup(ctx context.Context, br *command.BackupRequest, dst io.Writer) error {
+	// what Store.Backup does with compression forced on: gzip into dst, closed only on success
+	zw, _ := gzip.NewWriterLevel(dst, gzip.BestSpeed)
+	if d.failAt >= 0 {
+		zw.Write(d.payload[:d.failAt])
+		zw.Flush()
+		return errors.New("c21: the leader's backup source failed")
+	}
+	if _, err := zw.Write(d.payload); err != nil {
+		return err
+	}
+	return zw.Close()
+}
+
+type c21LeaderMgr struct{}
+
+func (c21LeaderMgr) LeaderAddr() (string, error)                                  { return "", nil }
+func (c21LeaderMgr) CommitIndex() (uint64, error)                                 { return 0, nil }
+func (c21LeaderMgr) Remove(ctx context.Context, rn *command.RemoveNodeRequest) error { return nil }
+func (c21LeaderMgr) Notify(n *command.NotifyRequest) error                        { return nil }
+func (c21LeaderMgr) Join(n *command.JoinRequest) error                            { return nil }
+func (c21LeaderMgr) Stepdown(wait bool, id string) error                          { return nil }
+
+type c21Dialer struct{}
+
+func (c21Dialer) Dial(addr string, timeout time.Duration) (net.Conn, error) {
+	return net.DialTimeout("tcp", addr, timeout)
+}
+
+// c21RealCluster: the package's cluster double, except that Backup is the REAL cluster client
+type c21RealCluster struct {
+	*mockClusterService
+	cl *cluster.Client
+}
+
+func (c *c21RealCluster) Backup(ctx context.Context, br *command.BackupRequest, addr string, creds *clstrPB.Credentials, timeout time.Duration, w io.Writer) error {
+	return c.cl.Backup(ctx, br, addr, creds, timeout, w)
+}
+
+// TestVerifC21HTTPRelay: real http.Service -> real proxy -> real cluster.Client -> real
+// cluster.Service of a "leader" whose backup source fails after a fraction of the payload, for
+// compress on and off. The HTTP client must see an error whenever the backup is incomplete.
+func TestVerifC21HTTPRelay(t *testing.T) {
+	rep := vfNewReport("C21", "real http.Service GET /db/backup on a non-leader: real proxy, real cluster.Client, real cluster.Service of the leader over TCP; the leader's backup source fails after 0, 1, 30%, 60%, 99% of a 300 KB payload or not at all; compress=on/off. A case is non-trivial when the source fails after the first byte; distinct by (compress, fraction)")
+	defer rep.Write()
+	ln, err := net.Listen("tcp", "127.0.0.1:0")
+	if err != nil {
+		t.Fatalf("listen: %v", err)
+	}
+	ldb := &c21LeaderDB{failAt: -1}
+	lsvc := cluster.New(ln, ldb, c21LeaderMgr{}, nil)
+	if err := lsvc.Open(); err != nil {
+		t.Fatalf("leader service: %v", err)
+	}
+	defer lsvc.Close()
+
+	m := &MockStore{leaderAddr: lsvc.Addr()}
+	m.backupFn = func(br *command.BackupRequest, dst io.Writer) error { return store.ErrNotLeader }
+	c := &c21RealCluster{mockClusterService: &mockClusterService{apiAddr: "http://leader:4001"}, cl: cluster.NewClient(c21Dialer{}, 5*time.Second)}
+	s := New("127.0.0.1:0", m, c, proxy.New(m, c), nil)
+	if err := s.Start(); err != nil {
+		t.Fatalf("start: %v", err)
+	}
+	defer s.Close()
+	payload := make([]byte, 300000)
+	for i := range payload {
+		payload[i] = byte((i * 31) ^ (i >> 7)) // poorly compressible: the stream spans many TCP writes
+	}
+	ldb.payload = payload
+	host := fmt.Sprintf("http://%s", s.Addr().String())
+	var ops, impl []string
+	for _, compress := range []bool{false, true} {
+		for _, frac := range []int{-1, 0, 1, 30, 60, 99} {
+			switch {
+			case frac < 0:
+				ldb.failAt = -1
+			case frac == 1:
+				ldb.failAt = 1
+			default:
+				ldb.failAt = len(payload) * frac / 100
+			}
+			// (a fresh inter-node client per request: after a failed transfer the pooled connection
+			// is dead on the leader's side and the next request on it fails once with a broken pipe —
+			// reported as an error, so not this property's concern)
+			c.cl = cluster.NewClient(c21Dialer{}, 5*time.Second)
+			url := host + "/db/backup"
+			if compress {
+				url += "?compress"
+			}
+			resp, err := (&http.Client{}).Get(url)
+			var body []byte
+			var rerr error
+			status := 0
+			if err == nil {
+				status = resp.StatusCode
+				body, rerr = io.ReadAll(resp.Body)
+				resp.Body.Close()
+			}
+			sawError := err != nil || rerr != nil || status != http.StatusOK
+			name := fmt.Sprintf("compress=%v,source-fails-at=%d%%", compress, frac)
+			rep.Case(name, frac > 0)
+			rep.Count(fmt.Sprintf("http-relay:compress=%v:error-visible=%v", compress, sawError))
+			stTok := fmt.Sprint(status)
+			if err != nil || rerr != nil {
+				stTok = "-"
+			}
+			if frac < 0 {
+				ops = append(ops, fmt.Sprintf("http 1 %d 0", len(body)))
+				impl = append(impl, fmt.Sprintf("status=%s clean=%v error-visible=%v", stTok, err == nil && rerr == nil, sawError))
+				want := payload
+				if compress {
+					zr, zerr := gzip.NewReader(bytes.NewReader(body))
+					if zerr == nil {
+						body, zerr = io.ReadAll(zr)
+					}
+					if zerr != nil {
+						rep.Fail("http-relay:complete-compressed-backup-unreadable", zerr.Error(), nil)
+					}
+				}
+				if sawError || !bytes.Equal(body, want) {
+					rep.Fail("http-relay:complete-backup-reported-as-error-or-wrong", fmt.Sprintf("%s: status %d, %d bytes, %v %v body=%q", name, status, len(body), err, rerr, string(body[:min(len(body), 120)])), nil)
+				}
+				continue
+			}
+			if !sawError {
+				rep.Fail(fmt.Sprintf("http:failed-backup-answered-200-with-complete-looking-body:relayed-real-client:compress=%v", compress),
+					fmt.Sprintf("the leader's backup source failed after %d of %d bytes; the HTTP client of the relaying node got status 200 and a body of %d bytes that ended normally", ldb.failAt, len(payload), len(body)),
+					map[string]interface{}{"compress": compress, "fail_at": ldb.failAt, "body_bytes": len(body)})
 			}
 		}
 	}
